@@ -119,6 +119,30 @@ func BuildBinary(repoDir, dir, ldVersion string) (*Binary, error) {
 	}
 	name := fmt.Sprintf("gontainer-%d", len(binCache))
 	out := filepath.Join(dir, name)
+	if v, ok := strings.CutPrefix(ldVersion, "module:"); ok {
+		// the tool built the way `go install github.com/gontainer/gontainer@v<version>` builds it: as a dependency of
+		// another module, so that the version comes from the build info and no linker flag is involved
+		w := filepath.Join(dir, name+"-wrapper")
+		if err := os.MkdirAll(w, 0o755); err != nil {
+			return nil, err
+		}
+		gomod := "module wrapper\n\ngo 1.21\n\nrequire github.com/gontainer/gontainer v" + v + "\n\nreplace github.com/gontainer/gontainer v" + v + " => " + repoDir + "\n"
+		_ = os.WriteFile(filepath.Join(w, "go.mod"), []byte(gomod), 0o644)
+		_ = os.WriteFile(filepath.Join(w, "tools.go"), []byte("//go:build tools\n\npackage tools\n\nimport _ \"github.com/gontainer/gontainer\"\n"), 0o644)
+		if b, err := os.ReadFile(filepath.Join(repoDir, "go.sum")); err == nil {
+			_ = os.WriteFile(filepath.Join(w, "go.sum"), b, 0o644)
+		}
+		cmd := exec.Command("go", "build", "-o", out, "github.com/gontainer/gontainer")
+		cmd.Dir = w
+		cmd.Env = append(os.Environ(), "GOFLAGS=-mod=mod")
+		if b, err := cmd.CombinedOutput(); err != nil {
+			return nil, fmt.Errorf("go build (module v%s) %s: %v\n%s", v, repoDir, err, b)
+		}
+		_ = os.RemoveAll(w)
+		b := &Binary{Path: out}
+		binCache[key] = b
+		return b, nil
+	}
 	args := []string{"build", "-o", out}
 	if ldVersion != "" {
 		// "<version>|<extra>": the other variables release builds inject (make build, goreleaser): extra is "dirty" or "clean"
